@@ -104,7 +104,7 @@ func (w *walker) walk(typ zed.Type, b zcode.Bytes, path string) {
 		}
 		w.shape = append(w.shape, fmt.Sprintf("%s|len=%d", path, i))
 	case *zed.TypeError:
-		w.leaves = append(w.leaves, path+"|!error|"+zson.FormatValue(zed.NewValue(typ, b)))
+		w.leaves = append(w.leaves, path+"|!error|"+format(zed.NewValue(typ, b)))
 	default:
 		w.leaves = append(w.leaves, leafString(path, typ, b))
 	}
